@@ -932,11 +932,61 @@ def rule_extents_from_sorted(prog, fixture=False):
     return r
 
 
+# ---------------------------------------------------------------- R-C01-9
+def rule_empty_files_do_not_overlap(prog, fixture=False):
+    r = RuleResult("R-C01-9", "catalogue validation: an entry is remembered as `the previous file` for the overlap "
+                   "test only where its length is known to be non-zero - an empty file has a start sector but "
+                   "occupies nothing, and a well-formed disc on which a file follows an empty one at the same "
+                   "sector must not be rejected (none of its files could then be read)", floor=0 if fixture else 1)
+    for fn in prog.functions.values():
+        # loop-carried variables assigned from  X.start_sector()  and compared with  X.last_sector()
+        for n in fn.walk():
+            tgt = rhs = None
+            if n.get("k") == "CXXOperatorCallExpr" and n.get("op") == "=" and len(n.get("c", [])) == 3:
+                tgt, rhs = strip_all(n["c"][1]), n["c"][2]
+            elif n.get("k") == "BinaryOperator" and n.get("op") == "=":
+                tgt, rhs = strip_all(n["c"][0]), n["c"][1]
+            if tgt is None or tgt.get("k") != "DeclRefExpr" or tgt.get("dk") != "Var":
+                continue
+            src = [x for x in walk(rhs) if x.get("k") == "CXXMemberCallExpr" and (strip(x["c"][0]) or {}).get("n") == "start_sector"]
+            if not src:
+                continue
+            if not any(a.get("k") in ("ForStmt", "WhileStmt", "DoStmt", "CXXForRangeStmt") for a in fn.ancestors(n)):
+                continue
+            used = any(x.get("k") in ("BinaryOperator", "CXXOperatorCallExpr") and x.get("op") in (">=", ">", "<", "<=") and
+                       any(y.get("k") == "DeclRefExpr" and y.get("d") == tgt["d"] for y in walk(x)) and
+                       any(y.get("k") == "CXXMemberCallExpr" and (strip(y["c"][0]) or {}).get("n") == "last_sector" for y in walk(x))
+                       for x in fn.walk())
+            if not used:
+                continue
+            obj = strip_all((strip(src[0]["c"][0]) or {}).get("c", [None])[0])
+            g = Guards(fn)
+            ok = False
+            for l, rel, rr in (g.cmps(n) or []):
+                for a, b in ((l, rr), (rr, l)):
+                    ca = strip_all(a)
+                    if ca is not None and ca.get("k") == "CXXMemberCallExpr" and (strip(ca["c"][0]) or {}).get("n") == "file_length" and \
+                            folded(b) == 0 and rel in ("!=", ">", "<"):
+                        o2 = strip_all((strip(ca["c"][0]) or {}).get("c", [None])[0])
+                        if obj is not None and o2 is not None and o2.get("d") == obj.get("d"):
+                            ok = True
+            for a, truth in (g.truths(n) or []):
+                ca = strip_all(a)
+                if truth and ca is not None and ca.get("k") == "CXXMemberCallExpr" and (strip(ca["c"][0]) or {}).get("n") == "file_length":
+                    ok = True
+            key = "%s::%s::%s=start_sector" % (fn.relfile(), fn.qn, tgt.get("n"))
+            r.add(key, fn.loc(n), ok, "only entries of non-zero length are remembered" if ok else
+                  "`%s` is updated from an entry whose length may be zero: the next entry is then tested for overlap with "
+                  "a file that occupies no sector, and a valid disc is refused" % tgt.get("n"))
+    return r
+
+
 def run(ctx):
     prog = ctx.prog("dfs", "N")
     r1 = c02.rule_entry_fields(prog, only=["start_sector", "file_length"], rule_id="R-C01-1")
     return [r1, rule_body_path(prog), rule_walk_accounting(prog), rule_last_sector(prog),
-            rule_degenerate_continue(prog), rule_opus_catalogue_slot(prog), rule_extents_from_sorted(prog)]
+            rule_degenerate_continue(prog), rule_opus_catalogue_slot(prog), rule_extents_from_sorted(prog),
+            rule_empty_files_do_not_overlap(prog)]
 
 
 SELFTESTS = [
